@@ -1055,6 +1055,26 @@ func lDirected() []LCase {
 				LFile{URI: "/api/sub/one.json", Single: jobj("x-kind", "schema", "description", "id2", "type", "object",
 					"properties", jobj("back", jobj("$ref", "../root.json#/components/schemas/K"), "in", jobj("$ref", "#/components/schemas/K"), "sib", jobj("$ref", "one.json")))},
 				LFile{URI: "/api/sub/resp.json", Single: jobj("x-kind", "response", "description", "id3", "content", jobj("application/json", jobj("schema", jobj("$ref", "one.json"))))}))
+			// link chains across directories: every hop is resolved relative to the file that holds the reference followed
+			// (decoys with other content sit where a hop resolved against the wrong file would land)
+			out = append(out, mk(allow, entry,
+				doc("/api/root.json", jobj("responses", jobj("R", jobj("description", "id1", "links", jobj("l", jobj("$ref", "sub/a.json#/components/links/L"))))), nil),
+				doc("/api/sub/a.json", jobj("links", jobj("L", jobj("$ref", "b.json#/components/links/L"))), nil),
+				doc("/api/sub/b.json", jobj("links", jobj("L", jobj("description", "id5", "operationId", "op"))), nil),
+				doc("/api/b.json", jobj("links", jobj("L", jobj("description", "id6", "operationId", "decoy"))), nil)))
+			out = append(out, mk(allow, entry,
+				doc("/api/root.json", jobj("responses", jobj("R", jobj("description", "id1", "links", jobj("l", jobj("$ref", "sub/a.json#/components/links/L"))))), nil),
+				doc("/api/sub/a.json", jobj("links", jobj("L", jobj("$ref", "deeper/c.json#/components/links/M"))), nil),
+				doc("/api/sub/deeper/c.json", jobj("links", jobj("M", jobj("$ref", "../b.json#/components/links/L"))), nil),
+				doc("/api/sub/b.json", jobj("links", jobj("L", jobj("description", "id5", "operationId", "op"))), nil),
+				doc("/api/b.json", jobj("links", jobj("L", jobj("description", "id6", "operationId", "decoy"))), nil),
+				doc("/api/sub/deeper/b.json", jobj("links", jobj("L", jobj("description", "id7", "operationId", "decoy2"))), nil)))
+			// the same for a chain of responses and of examples
+			out = append(out, mk(allow, entry,
+				doc("/api/root.json", jobj("responses", jobj("R", jobj("$ref", "sub/a.json#/components/responses/R"))), nil),
+				doc("/api/sub/a.json", jobj("responses", jobj("R", jobj("$ref", "b.json#/components/responses/R"))), nil),
+				doc("/api/sub/b.json", jobj("responses", jobj("R", jobj("description", "id5"))), nil),
+				doc("/api/b.json", jobj("responses", jobj("R", jobj("description", "id6"))), nil)))
 			// positions no resolver visits
 			out = append(out, mk(allow, entry, doc("/api/root.json", jobj(
 				"examples", jobj("E", jobj("description", "id1", "value", 1.0)),
